@@ -2,8 +2,9 @@
    Every (prefix, template, tail) triple of the frozen grammar, under every
    uniform separator of W + {/**/}, in canonical upper case, is reported by the
    model: decided by vm_compute, sharded (gen/C03Core_*.v), bound = the frozen
-   list itself.  The infinite dimensions (letter case, separator mixing,
-   whitespace runs) are not lifted here: see C03 in DESIGN.md. *)
+   list itself.  The infinite dimensions are lifted elsewhere: every ASCII case
+   assignment in this file's C03_core_any_case (by the C10 theorem), separator
+   mixing and whitespace runs in Properties/C03ws.v. *)
 From Coq Require Import List ZArith String Bool.
 From Coq.Strings Require Import Byte.
 From LI Require Import Prelude Base SqliLex SqliFold GrammarSqli.
